@@ -7,6 +7,7 @@ import (
 	"fmt"
 	"math"
 	"math/big"
+	"reflect"
 	"strconv"
 	"strings"
 
@@ -458,4 +459,97 @@ func dump(x starlark.Value, limit int) (*graph, error) {
 	}
 	g.root = r
 	return g, nil
+}
+
+// wellFormed uses a decoded value the way its consumers do (C15: "a well-formed non-nil value"): every node reachable from
+// it must be a non-nil value that is not a typed nil pointer and whose Type, Truth, Hash, Len, iteration and (at the
+// root) String can be called without a panic. Hash errors (unhashable) are fine; panics are not.
+func wellFormed(x starlark.Value) (problem string) {
+	defer func() {
+		if p := recover(); p != nil {
+			problem = fmt.Sprintf("panic while using the value: %v", p)
+		}
+	}()
+	seen := map[any]bool{}
+	nodes := 0
+	var walk func(x starlark.Value) string
+	walk = func(x starlark.Value) string {
+		nodes++
+		if nodes > dumpLimit {
+			return ""
+		}
+		if x == nil {
+			return "nil value inside"
+		}
+		rv := reflect.ValueOf(x)
+		switch rv.Kind() {
+		case reflect.Ptr, reflect.Func, reflect.Map, reflect.Chan, reflect.Interface, reflect.UnsafePointer:
+			if rv.IsNil() {
+				return fmt.Sprintf("typed nil %T inside", x)
+			}
+		}
+		_ = x.Type()
+		_ = x.Truth()
+		if nodes <= 20000 {
+			_, _ = x.Hash()
+		}
+		var kids []starlark.Value
+		switch x := x.(type) {
+		case starlark.Tuple:
+			kids = x
+		case *starlark.List:
+			if seen[x] {
+				return ""
+			}
+			seen[x] = true
+			for i := 0; i < x.Len(); i++ {
+				kids = append(kids, x.Index(i))
+			}
+		case *starlark.Dict:
+			if seen[x] {
+				return ""
+			}
+			seen[x] = true
+			_ = x.Len()
+			for _, it := range x.Items() {
+				kids = append(kids, it[0], it[1])
+			}
+		case *starlark.Set:
+			if seen[x] {
+				return ""
+			}
+			seen[x] = true
+			_ = x.Len()
+			kids = x.Elems()
+		case *hostObj:
+			if seen[x] {
+				return ""
+			}
+			seen[x] = true
+			kids = []starlark.Value{x.args}
+		}
+		for _, k := range kids {
+			if p := walk(k); p != "" {
+				return p
+			}
+		}
+		return ""
+	}
+	if p := walk(x); p != "" {
+		return p
+	}
+	if nodes <= 20000 {
+		_ = x.String()
+	}
+	return ""
+}
+
+// safeDump is dump under recover: a value that cannot even be traversed is ill-formed, not a reason to die
+func safeDump(x starlark.Value, limit int) (g *graph, err error) {
+	defer func() {
+		if p := recover(); p != nil {
+			g, err = nil, fmt.Errorf("panic while traversing the value: %v", p)
+		}
+	}()
+	return dump(x, limit)
 }
